@@ -75,11 +75,61 @@ def damage(rng, case, hist):
     return capgen.to_pcapng(pk), keylog, kind
 
 
+def builder_from(seq_s, seq_c, v6):
+    """a real OutputBuilder whose conversation has already carried seq_s - 1 bytes from the server and seq_c - 1 from the client"""
+    from tlexport.output_builder import OutputBuilder
+    import contextlib, io
+    with contextlib.redirect_stdout(io.StringIO()):
+        ob = OutputBuilder([], "fd00::2" if v6 else "10.0.0.2", "fd00::1" if v6 else "10.0.0.1", 443, 50000, "02:00:00:00:00:02", "02:00:00:00:00:01", {}, v6, True)
+    ob.server_seq, ob.client_seq = seq_s, seq_c
+    return ob
+
+
+def sequence_space(ob, seq_s, seq_c, steps):
+    """steps: [(isserver, data, k carriers)].  None, or what is wrong with the sequence and acknowledgement numbers of the segments built"""
+    from scapy.layers.inet import TCP
+    cur = {True: seq_s, False: seq_c}
+    for srv, data, k in steps:
+        before = len(ob.out)
+        (ob.build_server_packet if srv else ob.build_client_packet)(data, [1000.0 + i for i in range(k)])
+        got = b""
+        new = ob.out[before:]
+        for pkt, ts in new:
+            t = pkt[TCP]
+            pl = bytes(t.payload)
+            from_srv = t.sport == 443
+            if pl or from_srv == srv:
+                if from_srv != srv:
+                    return "a data segment flows against its record's direction"
+                if t.seq != cur[srv] or t.ack != cur[not srv]:
+                    return "data segment with seq %d ack %d where the sender's stream continues at %d and the peer's at %d" % (t.seq, t.ack, cur[srv], cur[not srv])
+                cur[srv] += len(pl)
+                got += pl
+            else:
+                if t.seq != cur[not srv] or t.ack != cur[srv]:
+                    return "acknowledgement with seq %d ack %d, expected %d and %d" % (t.seq, t.ack, cur[not srv], cur[srv])
+        if got != data:
+            return "the segments of a record of %d bytes carry %d bytes" % (len(data), len(got))
+        if len([1 for pkt, ts in new if bytes(pkt[TCP].payload)]) > k:
+            return "a record carried by %d packets is re-split into more segments" % k
+    return None
+
+
 def replay(path):
     r = json.load(open(path))
     impl = Impl()
     bad = 0
     for c in r["cases"]:
+        if "builder_state" in c:
+            b = c["builder_state"]
+            steps = [(a, bytes.fromhex(x), k) for a, x, k in c["records"]]
+            try:
+                why = sequence_space(builder_from(b["server_seq"], b["client_seq"], False), b["server_seq"], b["client_seq"], steps)
+            except Exception as e:
+                why = "the builder raises %s" % type(e).__name__
+            print("%s -> %s" % (c.get("what", "")[:110], "FAILS: " + why if why else "ok"))
+            bad += bool(why)
+            continue
         st, out = impl.run(bytes.fromhex(c["capture"]), c["keylog"], c.get("args", []))
         why = ("run ended with " + st) if st != "ok" else judge(out)[0]
         print("%s -> %s" % (c.get("what", "")[:110], "FAILS: " + why if why else "ok"))
@@ -140,6 +190,25 @@ def main():
                 hist["model_runs"] += 1
                 if mt != it:
                     disagreements.append({"what": "%s capture options %s" % (label, args), "model": mt[:100], "impl": it[:100], "capture": cap.hex(), "keylog": keylog, "args": args})
+    # the sequence space at the function level: a conversation that has already carried many bytes (a history summarised by the two
+    # sequence numbers the builder keeps) continues gap-free; starting points around the powers of two below 2^32
+    for j in range(120 if ck.tier == "quick" else 3000):
+        base = rng.choice([1, 2 ** 8, 2 ** 16, 2 ** 24, 2 ** 28, 2 ** 30, 2 ** 31, 2 ** 32 - 200000])
+        seq_s = max(1, base + rng.randrange(-70000, 70000)) if base > 1 else rng.randrange(1, 5000)
+        seq_c = rng.choice([1, rng.randrange(1, 2 ** 31), max(1, base - rng.randrange(0, 40000))])
+        steps = [(bool(rng.randrange(2)), bytes(rng.randrange(256) for _ in range(rng.choice([0, 1, 5, 40, 1400, 16384]))), rng.choice([1, 1, 2, 3, 12])) for _ in range(rng.randrange(1, 6))]
+        if max(seq_s, seq_c) + sum(len(d) for _, d, _ in steps) >= 2 ** 32:
+            continue
+        v6 = bool(rng.randrange(2))
+        try:
+            why = sequence_space(builder_from(seq_s, seq_c, v6), seq_s, seq_c, steps)
+        except Exception as e:
+            why = "the builder raises %s" % type(e).__name__
+        hist["sequence_space_start=2^%d" % max(seq_s, seq_c).bit_length()] += 1
+        ck.case(("seqspace", seq_s, seq_c, tuple((a, len(b), c) for a, b, c in steps)))
+        if why:
+            fails.append({"what": "conversation continuing at server seq %d / client seq %d with records %s: %s" % (seq_s, seq_c, [(a, len(b), c) for a, b, c in steps], why),
+                          "capture": "", "keylog": "", "args": [], "builder_state": {"server_seq": seq_s, "client_seq": seq_c}, "records": [(a, b.hex(), c) for a, b, c in steps]})
     if m:
         ck.cov["oracle_queries"] = m.queries
         ck.cov["model_runs_skipped"] = m.skipped
@@ -148,7 +217,8 @@ def main():
     ck.cov["traces_validated_against_impl"] = hist["model_runs"]
     ck.cov["rule"] = ("captures of 1..4 interleaved TLS (all versions/suites) and QUIC connections plus unrelated traffic (plain HTTP on 443, other ports, arbitrary UDP, "
                       "QUIC-looking noise), each healthy and with one fault (keys removed/partial/wrong, cut, dropped packet, flipped bit, shortened payload), under rotating "
-                      "option sets; the output is read by an independent strict pcapng reader, frame validator (lengths, IPv4/TCP/UDP checksums) and TCP reassembler")
+                      "option sets; the output is read by an independent strict pcapng reader, frame validator (lengths, IPv4/TCP/UDP checksums) and TCP reassembler; at the function level a real "
+                      "OutputBuilder continues conversations that have already carried up to 2^32 - 200000 bytes (sequence numbers around every power of two): gap-free, consistent acknowledgements")
     ck.cov["dimension_histogram"] = dict(sorted(hist.items()))
     if disagreements:
         ck.broken.append({"kind": "correspondence", "count": len(disagreements), "first": [{k: v for k, v in d.items() if k != "capture"} for d in disagreements[:4]]})
